@@ -255,10 +255,21 @@ def run(tier, seed):
         for df, dt in ((0, 0), (0, 5), (7, 0), (7, 5)):
             rec.case("join", (spec_key(spec), df, dt))
             check_join(rec, "join", 3, spec, df, dt)
+    # at scale: wider tensors (8-16 coordinates per rank)
+    for _ in range(25 if tier == "quick" else 300):
+        if rec.out_of_time():
+            break
+        depth = rnd.choice([2, 2, 3])
+        n = rnd.choice([8, 16]) if depth == 2 else 6
+        spec = random_spec(rnd, depth, n, p_present=rnd.choice([0.3, 0.7]))
+        fmts = tuple(rnd.choice("CU") for _q in range(depth))
+        args = (rnd.choice([0, 1]), fmts, rnd.random() < 0.5, rnd.random() < 0.7)
+        rec.case("scale", (spec_key(spec),) + args)
+        check_transforms(rec, "scale", depth, n, spec, *args)
     return rec.result("depth-2 trees over 2 coordinates x leaf default {0,1} x format assignments x mutability x authoritative/estimated shape x every "
                       "transform (split of each rank, swap, flatten/unflatten, all swizzles); seeded random depth 3-4 tensors; 3-rank tensors with a "
                       "different authoritative size per rank under all 6 permutations; lazily produced fibers (merges, populate, prune, projections) "
-                      "with every operand active-range combination; unowned fibers joining a tensor")
+                      "with every operand active-range combination; unowned fibers joining a tensor; plus seeded random wider tensors at scale (6-16 coordinates per rank)")
 
 
 def replay(case):
